@@ -1,6 +1,8 @@
 package harness
 
 import (
+	"com.tuntun.rangers/node/src/zzverif/model"
+	"encoding/hex"
 	"encoding/json"
 	"fmt"
 	"strings"
@@ -43,7 +45,8 @@ type c01Plan struct {
 	Shared   int           `json:"shared,omitempty"` // + this many proposers registered in the setup block under ONE reward account
 	Conc     int           `json:"conc,omitempty"`   // >0: this many executions of the block run CONCURRENTLY in one process (plus the competing block), under ConcSeed
 	ConcSeed uint64        `json:"conc_seed,omitempty"`
-	Jump     uint64        `json:"jump,omitempty"` // height slots skipped by the block under test (miners applied in the setup count from apply height + 300)
+	Jump     uint64        `json:"jump,omitempty"`
+	Redeploy bool          `json:"redeploy,omitempty"` // setup history: CREATE2 child, probed, self-destructed, redeployed at the same address with other code; the block under test probes it // height slots skipped by the block under test (miners applied in the setup count from apply height + 300)
 	Txs      []node.TxSpec `json:"txs"`
 	Alt      []node.TxSpec `json:"alt,omitempty"` // a DIFFERENT block of the same height (replicas with warm=3 execute it first)
 	QN       uint64        `json:"qn"`
@@ -70,11 +73,11 @@ func (c01) Budget(tier string) runner.Budget {
 
 func (c01) Describe() runner.Description {
 	return runner.Description{
-		Rule:        "each plan: a fixed funded parent state (2 setup blocks: funding transfers, 3 contracts, 0-2 miners) plus one seeded test block of 1..25 transactions of every executor type (operator transfers with 1-4 JSON targets incl. the source itself, the same address in different letter case, duplicate keys, zero/fractional/>18-decimal/negative/huge/malformed amounts, amounts exhausting the balance part-way; miner apply/add-stake/refund/change-account valid and invalid; contract create/call (native type and the wrapped-Ethereum type 188 form, nonce in sequence / too low / too high) of programs that SSTORE, LOG, move value, REVERT, self-destruct, burn all gas; repeated and out-of-order nonces; add-stake to the genesis proposers; 15% proposer-heavy blocks). In 40% of the plans the block under test skips 300..420 height slots so that miners registered by the setup (optionally 3-5 proposers sharing ONE reward account) are counted in the reward step; half of the plans carry a competing block of the same height that moves proposer stakes. The block is executed by R=4 (quick) / 8 (thorough) replica incarnations differing in seeded map-iteration order, wall clock (epoch, per-call drift), cold boot from the parent's disk image vs warm node with seeded first-touch reads or an executed-and-discarded block vs a fresh incarnation whose only history is the competing block of the same height; state root, evicted list, executed list and every receipt (status, result text, logs, gas, contract address) must be byte-identical. Then a proposer incarnation casts the block through the pool and a differently seeded incarnation must accept it. distinct_nontrivial = distinct (tx-kind multiset, outcome vector) pairs of blocks with >=2 transactions or a multi-target transfer.",
+		Rule:        "each plan: a fixed funded parent state (2 setup blocks: funding transfers, 3 contracts, 0-2 miners) plus one seeded test block of 1..25 transactions of every executor type (operator transfers with 1-4 JSON targets incl. the source itself, the same address in different letter case, duplicate keys, zero/fractional/>18-decimal/negative/huge/malformed amounts, amounts exhausting the balance part-way; miner apply/add-stake/refund/change-account valid and invalid; contract create/call (native type and the wrapped-Ethereum type 188 form, nonce in sequence / too low / too high) of programs that SSTORE, LOG, move value, REVERT, self-destruct, burn all gas; repeated and out-of-order nonces; add-stake to the genesis proposers; 15% proposer-heavy blocks). In 40% of the plans the block under test skips 300..420 height slots so that miners registered by the setup (optionally 3-5 proposers sharing ONE reward account) are counted in the reward step; half of the plans carry a competing block of the same height that moves proposer stakes. In 25% of the plans the setup history replaces the code at a fixed address (CREATE2 child probed by EXTCODESIZE, self-destructed, re-created with longer code) and the block under test probes it again. The block is executed first by the long-running incarnation that executed the whole setup history, then by R=4 (quick) / 8 (thorough) replica incarnations differing in seeded map-iteration order, wall clock (epoch, per-call drift), cold boot from the parent's disk image vs warm node with seeded first-touch reads or an executed-and-discarded block vs a fresh incarnation whose only history is the competing block of the same height; state root, evicted list, executed list and every receipt (status, result text, logs, gas, contract address) must be byte-identical. Then a proposer incarnation casts the block through the pool and a differently seeded incarnation must accept it. distinct_nontrivial = distinct (tx-kind multiset, outcome vector) pairs of blocks with >=2 transactions or a multi-target transfer.",
 		Assumptions: []string{"replicas are sequential incarnations in one process (singletons): process-local caches are reset the way a fresh process starts", "fork configuration fixed per plan (latestsync or devlike)"},
 		Real:        []string{"core/vmexecutor + all executors", "service (ChangeAssets, miner/refund/reward managers, tx pool)", "storage/account + trie", "vm (EVM)", "core cast/verify/add path"},
 		Stub:        []string{"ConsensusHelper", "network", "NTP clock (simulated)"},
-		FaultKinds:  []string{"map_order_seed", "clock_epoch_shift", "clock_drift_per_call", "cold_boot_replica", "warm_touch_order", "warm_discarded_block", "warm_competing_block_same_height", "concurrent_executions_in_one_process"},
+		FaultKinds:  []string{"map_order_seed", "clock_epoch_shift", "clock_drift_per_call", "cold_boot_replica", "warm_touch_order", "warm_discarded_block", "warm_competing_block_same_height", "concurrent_executions_in_one_process", "long_running_node_replica", "code_replaced_at_fixed_address_in_history"},
 	}
 }
 
@@ -206,6 +209,7 @@ func (c01) Gen(seed uint64, tier string) json.RawMessage {
 	if r.Chance(0.2) {
 		p.Conc, p.ConcSeed = r.Range(2, 3), r.U64()
 	}
+	p.Redeploy = r.Chance(0.25)
 	if r.Chance(0.5) {
 		// a competing block of the same height that moves proposer stakes
 		an := map[int]uint64{}
@@ -248,7 +252,7 @@ func (c01) Gen(seed uint64, tier string) json.RawMessage {
 }
 
 // c01Setup builds the parent state and returns its disk image, head and contracts.
-func c01Setup(p *c01Plan) (*simdisk.Disk, *types.BlockHeader, []string, [8]uint64) {
+func c01Setup(p *c01Plan) (*simdisk.Disk, *types.BlockHeader, []string, [8]uint64, *node.Node, *node.TxSpec) {
 	simmap.Seed = 0
 	utility.SimClock = nil
 	node.SetTime(node.EpochTime)
@@ -268,7 +272,11 @@ func c01Setup(p *c01Plan) (*simdisk.Disk, *types.BlockHeader, []string, [8]uint6
 		txs = append(txs, node.TransferTx(node.Funded[0], 0, map[string]string{node.Account(i): "6000"}, fmt.Sprintf("fund%d", i)))
 	}
 	var creates []*types.Transaction
-	for k, prog := range []int{0, 2, 6, 4, 5} {
+	progs := []int{0, 2, 6, 4, 5}
+	if p.Redeploy {
+		progs = append(progs, node.ProgFactory, node.ProgProber)
+	}
+	for k, prog := range progs {
 		tx := node.TxSpec{K: "create", From: 1, Nonce: uint64(k), Prog: prog, Salt: fmt.Sprintf("setupc%d", k)}.Build()
 		creates = append(creates, tx)
 		txs = append(txs, tx)
@@ -299,13 +307,46 @@ func c01Setup(p *c01Plan) (*simdisk.Disk, *types.BlockHeader, []string, [8]uint6
 		txs2 = append(txs2, node.TxSpec{K: "apply", From: j % 4, Miner: 10 + j, MType: 1, Stake: uint64(2000 + 370*j + 10*(int(p.Seed%7))), Acct: 4, Salt: fmt.Sprintf("setups%d", j)}.Build())
 	}
 	must(c01Cast(n, node.BlockSpec{QN: 1, PV: 1, TimeMs: 2000, Txs: txs2}, 2))
+	var probe *node.TxSpec
+	if p.Redeploy {
+		// a contract whose code changes at a fixed address: CREATE2 child (10 bytes of code), its code size
+		// read by the prober, the child self-destructs, the factory creates it again with 20 bytes of code
+		factory, prober := contracts[5], contracts[6]
+		contracts = contracts[:5]
+		buf := append([]byte{0xff}, common.HexToAddress(factory).Bytes()...)
+		buf = append(buf, common.BigToHash(bigFrom(node.FactorySalt)).Bytes()...)
+		buf = append(buf, model.Keccak(node.FactoryInit)...)
+		child := common.BytesToAddress(model.Keccak(buf)[12:])
+		word := func(v int64) string { return hex.EncodeToString(common.BigToHash(bigFrom(v)).Bytes()) }
+		probeData := hex.EncodeToString(common.BytesToHash(child.Bytes()).Bytes())
+		ok := func(tx *types.Transaction, what string) {
+			if ex := n.Pool.GetExecuted(tx.Hash); ex == nil || ex.Receipt.Status != types.ReceiptStatusSuccessful {
+				panic(runner.InfraError{Msg: "C01 setup (redeploy history): " + what + " failed"})
+			}
+		}
+		fund := node.TransferTx(node.Funded[2], 0, map[string]string{factory: "1"}, "setupr-fund")
+		mk1 := node.TxSpec{K: "call", From: 2, Nonce: 1, To: factory, Data: word(8), Salt: "setupr-mk1"}.Build()
+		pr1 := node.TxSpec{K: "call", From: 2, Nonce: 2, To: prober, Data: probeData, Salt: "setupr-pr1"}.Build()
+		must(c01Cast(n, node.BlockSpec{QN: 1, PV: 1, TimeMs: 3000, Txs: []*types.Transaction{fund, mk1}}, 3))
+		ok(mk1, "first CREATE2")
+		// probed in a LATER block: the code is then loaded through the database layer (and its caches)
+		must(c01Cast(n, node.BlockSpec{QN: 1, PV: 1, TimeMs: 3500, Txs: []*types.Transaction{pr1}}, 6))
+		ok(pr1, "first probe")
+		kill := node.TxSpec{K: "call", From: 2, Nonce: 3, To: child.GetHexString(), Salt: "setupr-kill"}.Build()
+		must(c01Cast(n, node.BlockSpec{QN: 1, PV: 1, TimeMs: 4000, Txs: []*types.Transaction{kill}}, 4))
+		ok(kill, "self-destruct of the child")
+		mk2 := node.TxSpec{K: "call", From: 2, Nonce: 4, To: factory, Data: word(18), Salt: "setupr-mk2"}.Build()
+		must(c01Cast(n, node.BlockSpec{QN: 1, PV: 1, TimeMs: 5000, Txs: []*types.Transaction{mk2}}, 5))
+		ok(mk2, "second CREATE2")
+		probe = &node.TxSpec{K: "call", From: 3, To: prober, Data: probeData, Salt: "probe-redeployed"}
+	}
 	var nonces [8]uint64
 	if state, err := middleware.AccountDBManagerInstance.GetAccountDBByHash(n.Chain.TopBlock().StateTree); err == nil {
 		for i := range nonces {
 			nonces[i] = state.GetNonce(common.HexToAddress(node.Account(i)))
 		}
 	}
-	return disk.Clone(), n.Chain.TopBlock(), contracts, nonces
+	return disk.Clone(), n.Chain.TopBlock(), contracts, nonces, n, probe
 }
 
 // c01Cast casts through the exported API. With asynchronous casting active the call runs
@@ -477,7 +518,11 @@ func (c01) Exec(raw json.RawMessage, st *simrt.Stats, log *simrt.Log) *simrt.Vio
 		panic(runner.InfraError{Msg: "bad plan: " + err.Error()})
 	}
 	defer func() { simmap.Seed = 0; utility.SimClock = nil }()
-	image, parent, contracts, baseNonce := c01Setup(&p)
+	image, parent, contracts, baseNonce, setupNode, probe := c01Setup(&p)
+	if probe != nil {
+		p.Txs = append(append([]node.TxSpec{}, p.Txs...), *probe)
+		st.Fault("code_replaced_at_fixed_address_in_history")
+	}
 	forks := node.Forks(p.Forks)
 	multi := false
 	kinds := map[string]int{}
@@ -525,11 +570,13 @@ func (c01) Exec(raw json.RawMessage, st *simrt.Stats, log *simrt.Log) *simrt.Vio
 	zone := time.FixedZone("sim", p.ZoneH*3600)
 	hdr := types.BlockHeader{Height: parent.Height + 1 + p.Jump, PreHash: parent.Hash, PreTime: parent.CurTime, ProveValue: bigFrom(p.PV), TotalQN: parent.TotalQN + p.QN,
 		CurTime: node.EpochTime.Add(time.Duration(p.TimeMs) * time.Millisecond).In(zone), Castor: common.FromHex(node.Castors[p.Castor%2]), RequestIds: map[string]uint64{}}
-	{
-		n0 := node.Boot(image.Clone(), forks, false)
-		hdr.GroupId = n0.Groups.GetGroupByHeight(0).Id
-	}
+	hdr.GroupId = setupNode.Groups.GetGroupByHeight(0).Id // (no Boot here: the setup incarnation must stay alive for the long-running replica)
 	st.Evaluations++
+	// the long-running node: the incarnation that executed the whole setup history (its process-local
+	// caches have seen every earlier block) executes the block first; replica 0 below is a cold boot
+	hist := c01Exec(setupNode, parent, hdr, txs, altTxs, c01Replica{}, p.Seed)
+	st.Fault("long_running_node_replica")
+	log.Add("long-running node root=%s receipts=%d", hist.root[:10], len(hist.receipts))
 	var first c01Outcome
 	var live *node.Node
 	for i, rep := range p.Replicas {
@@ -569,6 +616,9 @@ func (c01) Exec(raw json.RawMessage, st *simrt.Stats, log *simrt.Log) *simrt.Vio
 		log.Add("replica %d map=%x warm=%d clock=%d step=%d root=%s receipts=%d evicted=%d", i, rep.MapSeed, rep.Warm, rep.ClockS, rep.StepMs, o.root[:10], len(o.receipts), len(o.evicted))
 		if i == 0 {
 			first = o
+			if where, detail := c01Diff(first, hist); where != "" {
+				return simrt.Violationf("C01", "replica-divergence", "long-running-node-"+where, 0, "replica 0 (cold boot from the parent's disk image) and the incarnation that executed the whole history before disagree: %s", detail)
+			}
 			st.ProbeN("miner_apply_ok", int64(o.applyOK))
 			st.ProbeN("miner_apply_failed", int64(o.applyFail))
 			if o.applyOK >= 3 {
